@@ -120,6 +120,7 @@ def run(ctx):
     from mstatic.rules import shared
     shared.subworkflow_recursion_unrestricted(ctx, r2, WH + '.stop_workflow',
                                               'stop_workflow')
+    shared.rearrange_tail(ctx, r2)
     # no early exit between wf.stop and the recursion for CANCELLED
     on, _oc = own[0]
     test_nodes = [x for x in cfg.nodes if x.kind == 'test' and
